@@ -95,6 +95,10 @@ def generate(rnd, tier):
     sid = SidCounter()
     cases = [gen_c02(rnd, sid) for _ in range(n)] + [gen_case(rnd, "loop", sid) for _ in range(n // 2)] + [gen_case(rnd, "app", sid) for _ in range(n // 4)]
     cases += [gen_late(rnd, sid) for _ in range(n // 20)] + [gen_late_ready(rnd, sid) for _ in range(n // 10)]
+    for _ in range(n // 10):
+        # the application's own ExceptionSignal handler fails at some invocation: that is an ordinary failing handler - one more exception signal, nobody is killed
+        c = gen_c02(rnd, sid); c["exc_handler"] = True; c["exc_raises"] = [rnd.choice([1, 1, 2])]
+        cases.append(c)
     if tier == "thorough":
         from harness.gen.exhaustive import loop_programs
         cases += list(loop_programs(sid))          # small-scope exhaustive: 3 663 programs
@@ -168,6 +172,12 @@ def monitor(case, obs):
     handled = sum(1 for i, ev, ctx in x.events() if ev[0] == "EXC-handled")
     if handled > raises + sum(1 for e in obs["log"] if False):
         pass      # KeyError / StackEmpty raised by the framework also surface as exception signals: no upper bound from scripts alone
+    if case.get("exc_raises") and case.get("exc_handler") and obs["outcome"][0] == "blocked" and end_depth == 1 and not any(ev[0] == "api" and ev[1] in ("force_quit", "raise_exit", "close_loop", "new_loop") for i, ev, ctx in x.events()):
+        # every failure of the exception handler surfaces as one more exception signal, which reaches the handler again
+        n_fail = sum(1 for k in case["exc_raises"] if k <= handled)
+        user_raises = sum(1 for i, ev, ctx in x.events() if ev[0] == "api" and ev[1] == "raise_err" and any(e[0][0] == "H" for e in x.x[:i]))
+        if handled < user_raises + n_fail:
+            return "%d handlers raised and the exception handler itself failed %d times, but it was invoked only %d times (the run is quiescent, nothing stopped it)" % (user_raises, n_fail, handled)
     if obs["outcome"][0] == "killed":
         if obs["outcome"][1] != 1: return "killed with exit status %r" % (obs["outcome"][1],)
         if case.get("exc_handler"): return "the process was killed although the application registered an ExceptionSignal handler"
